@@ -130,6 +130,59 @@ func inVendorx(p *d.T) {
 	}
 }
 
+// nestedProbeSources is a second fixed module in which diagnostics of different
+// codes are nested inside one expression: a literal in the argument list of a
+// reported call, chained reported calls, a reported write inside the index
+// expression of another reported write.
+func nestedProbeSources() ([]string, map[string]string) {
+	d2 := `package d2
+
+// @immutable
+// @constructor NewT
+type T struct {
+	X int
+	S []int
+}
+
+func NewT() *T { return &T{} }
+
+// @testonly
+type M struct{ Y int }
+
+// @testonly
+func Take(m M) *M { return &m }
+
+// @testonly
+func NewM() *M { return &M{} }
+
+// @testonly
+func (m *M) Reset() *M { return m }
+
+// @packageonly d2
+type P struct{ Z int }
+
+// @packageonly d2
+func Give(p P) *P { return &p }
+
+// @packageonly d2
+func (p *P) Do() *P { return p }
+`
+	w := `package w
+
+import "vf.test/m/d2"
+
+func nested(p *d2.T) {
+	d2.Take(d2.M{}) // s1
+	d2.NewM().Reset().Reset() // s2
+	d2.Give(d2.P{}).Do().Do() // s3
+	p.S[func() int { p.X++; return 0 }()] = 1 // s4
+	p.X, _ = func() (int, *d2.T) { p.X += 2; return 1, &d2.T{} }() // s5
+	_ = []*d2.T{{}, new(d2.T)} // s6
+}
+`
+	return []string{"d2", "w"}, map[string]string{"d2/d2.go": d2, "w/w.go": w}
+}
+
 // probeExpectedCodes: site tag -> code for the 16 per-code sites.
 var probeCodeOf = map[int]string{
 	1: "IMM01", 2: "IMM02", 3: "IMM03", 4: "IMM04", 5: "CTOR01", 6: "CTOR02", 7: "CTOR03",
